@@ -6,6 +6,20 @@ STD_ASSUME_PURE = [
 ]
 
 PROPS = {
+    "C06": {
+        "lean_modules": ["RdestModel.Props.C06"],
+        "cases": {"quick": 5000, "thorough": 150000},
+        "rule": "byte streams = 1..6 elements drawn from {valid message (all 11 kinds, boundary fields), unknown id with body, keep-alive, "
+                "known id with impossible length, handshake look-alike with one corrupted byte, oversize length, id 84 without handshake "
+                "prefix, garbage}, optionally truncated; ops: pf = feed + one parse_frame (vs model parseFrame); st = in-memory stream cut "
+                "exactly at the given points, next chunk written only when recv_frame is pending (vs model run, oracle decodeAll of the "
+                "concatenation, retained-buffer list vs model and < 65540); every single cut point of streams <= 48 bytes; tcp = same over a "
+                "real loopback TcpStream (socket branch of recv_frame); distinct = distinct argument lines",
+        "assumptions": STD_ASSUME_PURE + [
+            "tokio read_buf is cancel-safe and delivers bytes in order; one OS read appends at most the spare capacity on top of the retained prefix",
+            "the in-memory stream branch of recv_frame added by the hook mirrors the socket branch; the socket branch itself is exercised by the tcp op",
+        ],
+    },
     "C07": {
         "lean_modules": ["RdestModel.Props.C07"],
         "cases": {"quick": 6000, "thorough": 200000},
